@@ -2,14 +2,15 @@
    Model: QuadTree_Model.v (exact rationals; fx = true is the code as it is now, with the per-slot
    count[] of fix F24; fx = false is the code before that fix).  Specification: QuadTree_Spec.v.
    Every theorem is for all point lists, all root boxes, all insertion orders and all fuel values
-   (a run that ends with `Done` is a run of the C++; `insert_fuel` shows when `OutOfFuel` cannot
-   happen).  Only statements here; proofs are in QuadTree_Proof_*.v. *)
+   (a run that ends with `Done` is a run of the C++; `insert_fuel` bounds the recursion on grids and
+   `insert_terminates` shows that for every input some fuel gives `Done`, so `OutOfFuel` is only ever
+   a too small fuel argument, never a property of the input).  Only statements here; proofs are in QuadTree_Proof_*.v. *)
 From Coq Require Import List Arith Bool ZArith QArith Permutation Reals.
 From TK Require Import QuadTree_Model QuadTree_Spec QuadTree_SpecExec QuadTree_Proof_Base
                        QuadTree_Proof_Insert QuadTree_Proof_Main QuadTree_Proof_Forces
                        QuadTree_Proof_Fuel QuadTree_Proof_Spec QuadTree_Proof_Exec
                        QuadTree_Proof_Observers QuadTree_Proof_Order QuadTree_Proof_Order2 QuadTree_Proof_Bound
-                       QuadTree_Proof_Gradient QuadTree_Proof_Dump QuadTree_Proof_Coarse QuadTree_Proof_Counts
+                       QuadTree_Proof_Gradient QuadTree_Proof_Dump QuadTree_Proof_Coarse QuadTree_Proof_Counts QuadTree_Proof_Terminates
                        QuadTree_Proof_Final QuadTree_Proof_Sqrt.
 Import ListNotations.
 Local Open Scope Q_scope.
@@ -296,6 +297,18 @@ Example insert_fuel_nonvacuous :
   (forall i p, In i ex_order -> nth_error ex_data i = Some p -> on_grid (1#4) p) /\
   chw ex_root <= pow2 2 * (1#4) /\ chh ex_root <= pow2 2 * (1#4) /\ (2 + 3 <= 5)%nat.
 Proof. exact ex_fuel_hyps. Qed.
+
+(* 7a. the recursion of insert() ends on EVERY input (over the rationals): all finite rational data lie on a common
+       grid, so 7 applies with some d.  Hence "a run that ends with Done" in the theorems above is every run: for all
+       data, root boxes and insertion orders inside the root box the tree exists and satisfies the specification. *)
+Theorem insert_terminates : forall data order root,
+  in_root data root order ->
+  exists fuel t, fill_order true fuel data order (init root) = Done true t /\
+                 spec data order t /\ geom_ok t /\ qcell t = root.
+Proof. exact insert_terminates_final. Qed.
+Print Assumptions insert_terminates.
+Example insert_terminates_nonvacuous : in_root ex_data ex_root ex_order.
+Proof. exact ex_in_root. Qed.
 
 (* 8. the decision procedures the correspondence run applies to the dump of the real tree *)
 Theorem spec_okb_sound : forall data ins t, spec_okb data ins t = true -> spec data ins t.
